@@ -45,6 +45,77 @@ def disagree_jobs(rnd, n):
     return jobs
 
 
+def _mutate(rnd, a, pool):
+    b = list(a)
+    for _ in range(rnd.choice([1, 1, 1, 2, 2, 3, 5])):
+        k = rnd.random()
+        if k < 0.3 and b:
+            del b[rnd.randrange(len(b))]
+        elif k < 0.6:
+            b.insert(rnd.randint(0, len(b)), rnd.choice(pool))
+        elif k < 0.8 and b:
+            b[rnd.randrange(len(b))] = rnd.choice(pool)
+        elif len(b) >= 2:
+            i, j = rnd.randrange(len(b)), rnd.randrange(len(b))
+            b[i], b[j] = b[j], b[i]
+    return b
+
+
+def message_checks(out, corr, rnd):
+    """the TEXT of the collection error: the implementation's message is run through the verified checker of
+    Model/CollDiff.v (names both workers; its hunks turn the first collection into the second, so every id
+    that differs stands on a -/+ line: Proofs/CollDiffProofs.v) and through an independent monitor"""
+    n = 400 if out.tier == "quick" else 8000
+    n = int(n * out.boost)
+    cases = []
+    hist = {"equal": 0, "short(<=8)": 0, "long(two hunks possible)": 0, "empty side": 0, "duplicates": 0}
+    for _ in range(n):
+        size = rnd.choice([0, 1, 2, 3, 5, 8, 12, 20, 40] + ([70] if out.tier == "quick" else [120, 300]))
+        pool = ["test_m%d.py::test_%d" % (rnd.randrange(3), rnd.randrange(60)) for _ in range(6)] + \
+               ["t.py::TestK::test_p[a b-1]", "t.py::test_q[@@ -1 +1 @@]", "t.py::test_r[--- gw0]", "x"]
+        if rnd.random() < 0.25:
+            a = [rnd.choice(pool) for _ in range(size)]      # with repeated ids
+        else:
+            a = ["test_m%d.py::test_%d" % (i // 7, i) for i in range(size)]
+        k = rnd.random()
+        b = list(a) if k < 0.1 else [] if k < 0.15 else _mutate(rnd, a, pool)
+        f, t = rnd.choice([("gw0", "gw1"), ("gw3", "gw12"), ("gw1", "gw0")])
+        cases.append([a, b, f, t])
+        hist["equal" if a == b else "empty side" if not a or not b else "short(<=8)" if len(a) <= 8 else "long(two hunks possible)"] += 1
+        hist["duplicates"] += len(set(a)) != len(a)
+    res = run_jobs("drive_pure.py", [{"kind": "colldiff_msg", "case": c} for c in cases], nproc=4)
+    inputs, obs = [], []
+    for c, r in zip(cases, res):
+        a, b, f, t = c
+        if r and r[:1] == ["exc"]:
+            out.report({"kind": "collection-diff-raises", "function": "report_collection_diff"}, {"case": c, "result": r}, {"kind": "colldiff_msg", "case": c})
+            continue
+        inputs.append([a, b, f, t, r])
+        obs.append(1)
+        # monitor, independent of the model
+        if (r == []) != (a == b):
+            out.report({"kind": "collection-diff-none-for-different-collections" if r == [] else "collection-diff-message-for-equal-collections",
+                        "function": "report_collection_diff"}, {"case": c}, {"kind": "colldiff_msg", "case": c})
+        elif r:
+            lines = r[0]
+            if not (lines and f in lines[0] and t in lines[0] and ("--- " + f) in lines and ("+++ " + t) in lines):
+                out.report({"kind": "collection-diff-does-not-name-both-workers", "function": "report_collection_diff"},
+                           {"case": c, "message": lines[:6]}, {"kind": "colldiff_msg", "case": c})
+            body = lines[1:]
+            minus = [x[1:] for x in body if x.startswith("-") and x != "--- " + f]
+            plus = [x[1:] for x in body if x.startswith("+") and x != "+++ " + t]
+            from collections import Counter
+            ca, cb = Counter(a), Counter(b)
+            hidden = [x for x in ca if ca[x] > cb[x] and x not in minus] + [x for x in cb if cb[x] > ca[x] and x not in plus]
+            if hidden:
+                out.report({"kind": "collection-diff-hides-a-differing-id", "function": "report_collection_diff"},
+                           {"case": c, "hidden": hidden[:5], "message": lines}, {"kind": "colldiff_msg", "case": c})
+    corr.compare("report_collection_diff message accepted by the verified checker", "colldiff_msg", inputs, obs,
+                 nontrivial=lambda i, o: i[0] != i[1], histogram=hist)
+    out.assumptions.append("collection-diff message: test ids carry no trailing white space and no line break (the message is built line-wise and right-stripped); "
+                           "difflib's choice of WHICH minimal edit to show is not modelled, the shown edit is checked")
+
+
 def run(out: common.Outcome):
     rnd = random.Random(out.seed + 9)
     model = Model()
@@ -66,6 +137,7 @@ def run(out: common.Outcome):
     res = run_jobs("drive_pure.py", [{"kind": "colldiff", "case": p} for p in pairs], nproc=4)
     corr.compare("report_collection_diff is None iff equal", "coll_eq", pairs, res,
                  nontrivial=lambda i, o: i[0] != i[1])
+    message_checks(out, corr, rnd)
     corr.finish_incoq("C09")
     model.close()
     out.coverage["rule"] = ("sessions in which an initial worker and/or a replacement collects a permuted / partly different list of the same length, "
@@ -73,4 +145,18 @@ def run(out: common.Outcome):
     out.assumptions.append("collections of different LENGTH are not simulated at system level (an out-of-range index fails inside the worker, which the worker model does not cover)")
 
 
-replay = system_common.replay
+def replay(out, path):
+    import json
+    v = json.load(open(path))
+    rp = (v.get("violation") or {}).get("replay")
+    if isinstance(rp, dict) and rp.get("kind") == "colldiff_msg":
+        r = run_jobs("drive_pure.py", [rp], nproc=1)[0]
+        print(json.dumps({"case": rp["case"], "message": r}, indent=1))
+        o2 = common.Outcome("C09", "quick", 0)
+        a, b, f, t = rp["case"]
+        model = Model()
+        ok = model.batch("colldiff_msg", [[a, b, f, t, r]])[0]
+        model.close()
+        print("accepted by the verified checker:", ok)
+        return 0 if ok == 1 else 1
+    return system_common.replay(out, path)
